@@ -253,6 +253,7 @@ pub fn gen_spec(rng: &mut Rng, p: &Profile) -> Spec {
             }
             // a matrix: array component whose inline items are themselves an array of primitives (used inline wherever referenced)
             12 if rng.chance(1, 3) => s_arr(inl(s_arr(inl(prim(rng))))),
+            12 if p.hard_names && rng.chance(1, 4) => Schema { nullable: true, ..s_arr(if !refs.is_empty() { SRef::Ref(refs[rng.below(refs.len())].clone()) } else { inl(prim(rng)) }) },
             12 => s_arr(if !refs.is_empty() && rng.chance(1, 2) { SRef::Ref(refs[rng.below(refs.len())].clone()) } else { inl(prim(rng)) }),
             _ => object_schema(rng, p, &refs),
         };
@@ -347,11 +348,27 @@ pub fn gen_spec(rng: &mut Rng, p: &Profile) -> Spec {
             // wild: operationIds that coincide with methods the client type has anyway (open finding)
             let wild_ids = ["new", "from_env", "fromEnv", "with_auth", "authenticate"];
             let pool: Vec<&str> = if p.wild && rng.chance(1, 12) { wild_ids.to_vec() } else if p.hard_names { ids.to_vec() } else { ids[..8].to_vec() };
+            let used_ids: Vec<String> = spec.paths.iter().flat_map(|p| p.ops.iter()).filter_map(|o| o.operation_id.clone()).collect();
+            if p.wild && !used_ids.is_empty() && rng.chance(1, 14) {
+                // an id that differs from one already used only in case or punctuation (C06 names these; open finding)
+                let base = &used_ids[rng.below(used_ids.len())];
+                let words: Vec<String> = {
+                    use convert_case::{Case, Casing};
+                    base.to_case(Case::Snake).split('_').map(|w| w.to_string()).collect()
+                };
+                let variant = match rng.below(3) {
+                    0 => words.join("_"),
+                    1 => words.join("-"),
+                    _ => words.iter().map(|w| { let mut c = w.chars(); c.next().map(|f| f.to_uppercase().collect::<String>() + c.as_str()).unwrap_or_default() }).collect::<Vec<_>>().join(""),
+                };
+                if variant != *base && !used_ids.contains(&variant) && norm(&variant) == norm(base) { Some(variant) } else { continue }
+            } else {
             let v = pick_distinct(rng, &pool, 1, &mut op_taken);
             if v.is_empty() {
                 continue;
             }
             Some(v[0].clone())
+            }
         };
         if opid.is_none() {
             // synthesised name must not collide with others: verb+path key is unique already
@@ -586,6 +603,11 @@ pub fn gen_spec(rng: &mut Rng, p: &Profile) -> Spec {
                     "oauth".into(),
                     Scheme::OAuth2 { auth_url: "https://example.com/authorize".into(), token_url: "https://example.com/token".into(), refresh_url: None, scopes: vec![("read".into(), "Read access".into())] },
                 ));
+                if rng.chance(1, 2) {
+                    // several requirements, the OAuth2 one not the first; names not in alphabetical order
+                    spec.schemes.push(("zuluKey".into(), Scheme::ApiKey { loc: Loc::Header, name: "X-Zulu-Key".into() }));
+                    spec.security.push(vec!["zuluKey".into()]);
+                }
                 spec.security.push(vec!["oauth".into()]);
             }
             _ => {
